@@ -5,6 +5,7 @@ import VtProofs.Hilbert
 import VtProofs.VersatilesWrite
 import VtProofs.MBTiles
 import VtProofs.TarDir
+import VtProofs.TarRead
 import VtProofs.PMTilesWrite
 import VtProofs.Capstone
 /-!
@@ -177,6 +178,24 @@ example : (match Versatiles.write toyEnc demoSource with
       | _ => []
     | _ => []) = [.ok (some [1, 2, 3]), .ok (some [1, 2, 3]), .ok none, .ok (some [9]), .ok none] := by
   decide
+
+/-- **C01 (tar)**: opening the archive the tar writer produces (metadata member `tiles.json[.gz|.br]`
+    first, then one member `z/x/y.<fmt>[.<comp>]` per streamed tile) returns the declared format and
+    compression, every source tile's payload (also empty ones) and `None` for every other coordinate —
+    for every source that streams valid coordinates once each, has at least one tile and metadata
+    that inflates -/
+theorem tar_roundtrip (K : Inflate) (s : TarDir.WSource) (ok : VtProofs.TarRead.WOk K s) :
+    ∃ r, TarDir.openTar K (TarDir.writeFiles s) = .ok r ∧ r.fmt = s.fmt ∧ r.comp = s.comp ∧
+      (∀ t ∈ s.levels.flatMap s.stream, TarDir.getTile r t.1.1 t.1.2.1 t.1.2.2 = .ok (some t.2)) ∧
+      (∀ x y z, (∀ t ∈ s.levels.flatMap s.stream, t.1 ≠ (x, y, z)) → TarDir.getTile r x y z = .ok none) :=
+  VtProofs.TarRead.tar_roundtrip K s ok
+
+/-- **C01 (directory)**: the same for the directory writer and reader -/
+theorem directory_roundtrip (K : Inflate) (s : TarDir.WSource) (ok : VtProofs.TarRead.WOk K s) :
+    ∃ r, TarDir.openDir K (TarDir.writeFiles s) = .ok r ∧ r.fmt = s.fmt ∧ r.comp = s.comp ∧
+      (∀ t ∈ s.levels.flatMap s.stream, TarDir.getTile r t.1.1 t.1.2.1 t.1.2.2 = .ok (some t.2)) ∧
+      (∀ x y z, (∀ t ∈ s.levels.flatMap s.stream, t.1 ≠ (x, y, z)) → TarDir.getTile r x y z = .ok none) :=
+  VtProofs.TarRead.dir_roundtrip K s ok
 
 /-! ## capstone: C01 ∘ C02 ∘ C03 ∘ C15 -/
 
